@@ -14,7 +14,7 @@ shows exactly one invocation per call with equal arguments.
 """
 from simdbus import gen, net, objgen, refcodec as rc
 from simdbus.harness import BusRig, Obs, check_no_exceptions, exc_key
-from simdbus.kernel import Violation
+from simdbus.kernel import SimCancelled, Violation
 from simdbus.sched import Scheduler
 
 from txdbus import error as t_error
@@ -126,7 +126,7 @@ def scenario(ctx):
                 rec['out'] = ('value', ref)
                 return None if n == 0 else (txv[0] if n == 1 else tuple(txv))
             text = ds.pick(['went wrong', '', 'a: b'])
-            cls = AppError if k == 1 else PlainError
+            cls = AppError if k == 1 else ds.pick([PlainError, PlainError, SimCancelled])
             rec['out'] = ('raise', cls, text)
             raise cls(text)
 
